@@ -14,6 +14,10 @@ any_int = z3.Function('any_int', Any, z3.IntSort())
 any_real = z3.Function('any_real', Any, z3.RealSort())
 any_len = z3.Function('any_len', Any, z3.IntSort())       # len() of str/bytes/list
 any_bool = z3.Function('any_bool', Any, z3.BoolSort())
+any_item = z3.Function('any_item', Any, z3.IntSort(), Any)      # element of a list/tuple value
+any_u8 = z3.Function('any_u8', Any, z3.IntSort())               # utf-8 length of a str value
+any_nul = z3.Function('any_nul', Any, z3.BoolSort())            # str/bytes value contains NUL
+any_ascii = z3.Function('any_ascii', Any, z3.BoolSort())
 
 TAGS = {'int': 1, 'float': 2, 'str': 3, 'bytes': 4, 'list': 5, 'bool': 6,
         'none': 7, 'tuple': 8, 'other': 9, 'bytearray': 10, 'memoryview': 11}
